@@ -19,6 +19,6 @@ if res['json'] is None or te or real or rep['lost_anchors']:
     sys.exit(1)
 iface, fns = runner.fn_hashes(genfile, rep['linemap'])
 os.makedirs(os.path.join(VERIF, 'baseline'), exist_ok=True)
-json.dump({'interface': iface, 'functions': fns, 'repo_src_sha256': rep.get('src_sha256')},
+json.dump({'interface': iface, 'functions': fns, 'uncovered': rep['uncovered'], 'repo_src_sha256': rep.get('src_sha256')},
           open(os.path.join(VERIF, 'baseline', 'fnhash.json'), 'w'), indent=1, sort_keys=True)
 print('baseline written:', len(fns), 'functions, interface', iface[:16])
